@@ -184,32 +184,41 @@ def corr(ctx):
 # ----------------------------------------------------------------------------------------------
 
 def check_run(ctx, r):
-    """Evaluate C07's observable on one run; report failures."""
+    """Evaluate C07's observable on one run; report failures (the observed premature read / start first, then the
+    static defect of the traversal that explains it)."""
     case = r["case"]
     f = r["facts"]
     if r["error"] or f is None:
         ctx.fail("computation failed: %s" % r["error"], case)
         return
-    log = r["log"]
-    names = f["names"]
-    pa, po = st.producers(f)
     ctx.count({"oracle": case}, nontrivial=nontrivial(f), kind="oracle:" + kind_of(r))
     if f["multi_edges"]:
         ctx.dist["oracle:dag-with-parallel-edges"] += 1
-    # (0) the traversals of the tree under test: every executed producer of an op (over parallel edges too, at any distance
-    #     through skipped nodes) strictly earlier — for this DAG, whichever mode this run used
+    dyn = dynamic_failure(r)
+    if dyn is not None:
+        ctx.fail(dyn[0], dict(case, **dyn[1]))
+    # the traversals of the tree under test: every executed producer of an op (over parallel edges too, at any distance
+    # through skipped nodes) strictly earlier — for this DAG, whichever mode this run used
+    names = f["names"]
     for what, gens in (("visit_nodes", [[o] for o in f["visit_nodes"]]), ("visit_node_generations", f["visit_gens"])):
         bad = st.schedule_violations(f, gens)
         if bad:
             ctx.fail("%s: %s" % (what, bad[0][0]), dict(case, traversal=what, schedule=[[names[o] for o in g] for g in gens], **bad[0][1]))
             return
+
+
+def dynamic_failure(r):
+    """-> (message, detail) for the first violation visible in the store trace / event list of this run, or None."""
+    f = r["facts"]
+    log = r["log"]
+    names = f["names"]
+    pa, po = st.producers(f)
     # (1) no chunk read of an array of the computation misses
     for seq, _pid, kind, key, extra in log:
         if kind == "H" and extra == "0":
             a, k = st.key_kind(key, f)
             if k == "chunk":
-                ctx.fail("chunk read %s returned nothing (zarr substitutes the fill value)" % key, dict(case, key=key))
-                return
+                return ("chunk read %s returned nothing (zarr substitutes the fill value)" % key, {"key": key})
     # (2) per produced array: every chunk set completes before the first chunk get starts
     last_set, first_get = {}, {}
     for seq, _pid, kind, key, _extra in log:
@@ -222,9 +231,8 @@ def check_run(ctx, r):
             first_get.setdefault(a, seq)
     for a in first_get:
         if a in last_set and last_set[a] > first_get[a]:
-            ctx.fail("array %s: a chunk was read (log line %d) before the last chunk write completed (line %d)"
-                     % (names[a], first_get[a], last_set[a]), dict(case, array=names[a]))
-            return
+            return ("array %s: a chunk was read (log line %d) before the last chunk write completed (line %d)"
+                    % (names[a], first_get[a], last_set[a]), {"array": names[a]})
     # (3) an operation starts only after every operation producing its inputs has ended
     pos_start, pos_end = {}, {}
     for seq, _pid, kind, arg, extra in log:
@@ -235,27 +243,23 @@ def check_run(ctx, r):
     for o, ps in po.items():
         for p in ps:
             if o in pos_start and (p not in pos_end or pos_end[p] > pos_start[o]):
-                ctx.fail("operation %s started before its producer %s had ended" % (names[o], names[p]),
-                         dict(case, op=names[o], producer=names[p]))
-                return
+                return ("operation %s started before its producer %s had ended" % (names[o], names[p]),
+                        {"op": names[o], "producer": names[p]})
     # (4) array creation runs first
     c = f["create"]
     if c is not None and c not in f["computed"]:
         if c not in pos_start or c not in pos_end:
-            ctx.fail("create-arrays did not run", case)
-            return
+            return ("create-arrays did not run", {})
         for seq, _pid, kind, key, _extra in log:
             a, k = st.key_kind(key, f) if kind in ("S", "G") else (None, None)
             if k == "meta" and kind == "S" and not (pos_start[c] < seq < pos_end[c]):
-                ctx.fail("array %s created outside create-arrays" % key, dict(case, key=key))
-                return
+                return ("array %s created outside create-arrays" % key, {"key": key})
             if k == "chunk" and seq < pos_end[c]:
-                ctx.fail("chunk access %s before create-arrays had ended" % key, dict(case, key=key))
-                return
+                return ("chunk access %s before create-arrays had ended" % key, {"key": key})
         for o, sq in pos_start.items():
             if o != c and sq < pos_end[c]:
-                ctx.fail("operation %s started before create-arrays had ended" % names[o], dict(case, op=names[o]))
-                return
+                return ("operation %s started before create-arrays had ended" % names[o], {"op": names[o]})
+    return None
 
 
 def oracle(ctx):
